@@ -959,6 +959,36 @@ def _loops_between(fn, st, loads):
     return out
 
 
+def inline_new_constants(trees, stats):
+    """a module-level name the reference does not have, bound once to a literal / tuple of names (no calls), is a name for that value"""
+    known = reference().get('module_names', {})
+    for mod, tree in trees.items():
+        if mod not in known:
+            continue
+        new = {}
+        for n in tree.body:
+            if isinstance(n, ast.Assign) and len(n.targets) == 1 and isinstance(n.targets[0], ast.Name) and n.targets[0].id not in known[mod]:
+                v = n.value
+                if not any(isinstance(x, (ast.Call, ast.Lambda, ast.ListComp, ast.DictComp, ast.SetComp, ast.GeneratorExp, ast.List, ast.Dict, ast.Set)) for x in ast.walk(v)):
+                    new[n.targets[0].id] = v
+        for name in list(new):
+            stores = [x for x in ast.walk(tree) if isinstance(x, ast.Name) and x.id == name and isinstance(x.ctx, ast.Store)]
+            glob = [x for x in ast.walk(tree) if isinstance(x, ast.Global) and name in x.names]
+            if len(stores) != 1 or glob:
+                del new[name]
+        if not new:
+            continue
+        for key, fn in functions_of(tree, mod):
+            loc = set(local_names(fn))
+            env = {k: v for k, v in new.items() if k not in loc}
+            if env and any(isinstance(x, ast.Name) and x.id in env for x in ast.walk(fn)):
+                sub = _Subst(env)
+                fn.body = [sub.visit(b) for b in fn.body]
+                ast.fix_missing_locations(fn)
+                if stats is not None:
+                    stats.append((key, 'inlined new module constant(s) %s' % sorted(env)))
+
+
 def normalise_repo(trees, use_reference=True, stats=None):
     for tree in trees.values():
         for n in ast.walk(tree):
@@ -966,6 +996,7 @@ def normalise_repo(trees, use_reference=True, stats=None):
                 n.body = flatten_block(n.body)
     if use_reference and reference().get('functions'):
         ref = reference()['functions']
+        inline_new_constants(trees, stats)
         inline_new_helpers(trees, ref, stats)
         for mod, tree in trees.items():
             for key, fn in functions_of(tree, mod):
@@ -1003,14 +1034,15 @@ def make_reference(trees):
             h, order = blind(f2)
             comps = sorted({stmt_blind(ast.Expr(value=c), set(local_names(fn)))[0] for c in ast.walk(fn) if isinstance(c, (ast.ListComp, ast.DictComp, ast.SetComp))})
             out[key] = dict(blind=h, names=order, stmts=stm, plain=blind(fn)[0], comps=comps)
-    return dict(functions=out)
+    mods = {mod: sorted({t.id for n in tree.body if isinstance(n, ast.Assign) for t in n.targets if isinstance(t, ast.Name)}) for mod, tree in trees.items()}
+    return dict(functions=out, module_names=mods)
 
 
 # ------------------------------------------------------------------------------------------- 4. inlining of NEW private helpers
 # A refactoring that extracts a helper moves the construct a rule looks at out of the anchored function. Functions that do not exist in
 # the reference snapshot are therefore inlined back at their call sites (a behaviour-preserving rewrite in its own right, whatever the
 # helper contains), so that the rules - and the mutants hidden inside a new helper - are judged on the code that actually runs.
-PURE_CALLS = {'len', 'int', 'str', 'float', 'bool', 'type', 'isinstance', 'tuple', 'list', 'set', 'sorted', 'abs', 'min', 'max', 'dict', 'range', 'zip',
+PURE_CALLS = {'getattr', 'hasattr', 'len', 'int', 'str', 'float', 'bool', 'type', 'isinstance', 'tuple', 'list', 'set', 'sorted', 'abs', 'min', 'max', 'dict', 'range', 'zip',
               'as_list', 'as_tuple', 'is_int', 'is_str', 'is_num', 'is_date', 'is_pd', 'is_df', 'is_arr', 'is_ts', 'is_series', 'is_nan'}
 
 
